@@ -486,3 +486,148 @@ Example ex_life_hyp :
   unwrap_thread (mkL NotStarted 0 []) [EStart 7; EStep 2] [OStart 1 8 0; EStep 3] [OFinish 8; EStep 4]
   = (RSlice (0, 3), mkL (Alive 7) 3 [(8, (1, 0))]).
 Proof. reflexivity. Qed.
+
+(* ====================================================================== exact when blocked *)
+Lemma map_nth_seq_firstn {A} (dflt : A) : forall (l : list A) len, len <= length l ->
+  map (fun i => nth i l dflt) (seq 0 len) = firstn len l.
+Proof.
+  induction l as [|x l IH]; intros [|len] H; simpl in *; auto; try lia.
+  f_equal. rewrite <- seq_shift, map_map. simpl. apply IH. lia.
+Qed.
+
+Definition quiet : env_t := fun _ _ => Stay.
+
+Lemma apply_stay c w : apply c Stay w = w.
+Proof. unfold apply. destruct (whr w); reflexivity. Qed.
+
+Lemma slot_loop_quiet c a : chk_slot c = true ->
+  forall idxs w g, whr w = OnThread ->
+  (forall i, In i idxs -> i < length (slots (cur w))) ->
+  exists g', slot_loop c quiet a (lasti (cur w)) OnThread idxs w g = (true, w, g') /\
+             held g' = held g ++ map (fun i => nth i (slots (cur w)) STALE) idxs /\
+             nretry g' = nretry g /\ length (reads g') = length (reads g) + length idxs.
+Proof.
+  intros Hs. induction idxs as [|i r IH]; intros w g Hon Hidx; simpl.
+  - exists g. rewrite app_nil_r. repeat split; auto.
+  - assert (Eq : apply c (quiet a (P3 i)) w = w) by apply apply_stay.
+    rewrite !Eq, Hs, Nat.eqb_refl. simpl.
+    unfold is_stale. rewrite Hon. simpl.
+    assert (Hi : i < length (slots (cur w))) by (apply Hidx; left; auto).
+    apply Nat.ltb_lt in Hi. rewrite Hi.
+    match goal with |- context [push_read g ?R] => set (rd0 := R) end.
+    destruct (IH w (push_read g rd0) Hon) as (g' & E & H1 & H2 & H3).
+    { intros j Hj. apply Hidx. right; auto. }
+    exists g'. split; [exact E|]. simpl in H1, H2, H3. rewrite H1, H2, H3, app_length. simpl.
+    rewrite <- app_assoc. simpl. repeat split; auto. lia.
+Qed.
+
+(* For a target that never moves, for ALL positions and stacks: the FIRST attempt is accepted, no
+   retry happens, and the snapshot is the target's value stack -- all of it (= depth(L) slots) if the
+   frame is suspended in a call, its prefix at the enclosing handler's depth if it is executing. *)
+Lemma blocked_exact c d garb s :
+  flags_ok c -> 0 < retries c -> wf_state c d s ->
+  let len := match top s with None => handler_depth (tbl c) (lasti s) | Some n => n end in
+  exists g, run c quiet garb (mkW s OnThread) = (OOk (lasti s) (firstn len (slots s)), g, mkW s OnThread)
+            /\ nretry g = 0 /\ length (reads g) = len
+            /\ (top s <> None -> firstn len (slots s) = slots s /\ len = d (lasti s)).
+Proof.
+  intros (F1 & F2 & F3) Hr (Hd & Htop & Hhd & Hss & Hnr) len.
+  assert (Hlen : len <= length (slots s)).
+  { unfold len. destruct Htop as [E|E]; rewrite E; auto. }
+  assert (Hsz : match top s with None => Some (handler_depth (tbl c) (lasti s))
+                | Some n => if n <=? stacksize c then Some n else None end = Some len).
+  { unfold len. destruct Htop as [E|E]; rewrite E; auto. apply Nat.leb_le in Hss. rewrite Hss. auto. }
+  destruct (slot_loop_quiet c 0 F2 (seq 0 len) (mkW s OnThread) (drop_held g0) eq_refl) as (g' & E & H1 & H2 & H3).
+  { intros i Hi. apply in_seq in Hi. simpl. lia. }
+  simpl in E, H1, H2, H3.
+  exists g'. unfold run. destruct (retries c) as [|n]; [lia|].
+  assert (Eq : forall p w, apply c (quiet 0 p) w = w) by (intros; apply apply_stay).
+  simpl. unfold attempt. rewrite F1, F3. rewrite ?Eq.
+  rewrite is_stale_self. simpl. rewrite ?Nat.eqb_refl. simpl. rewrite Hsz.
+  rewrite ?Eq. simpl. rewrite ?Nat.eqb_refl. simpl.
+  replace (note_hdr false g0) with g0 by reflexivity.
+  rewrite E. simpl. rewrite ?Eq. simpl. rewrite ?Nat.eqb_refl.
+  rewrite H1. rewrite map_nth_seq_firstn by exact Hlen.
+  split; [reflexivity|]. split; [auto|]. split; [rewrite H3, seq_length; auto|].
+  intros Hne. destruct Htop as [E0|E0]; [contradiction|].
+  unfold len. rewrite E0. split; [apply firstn_all|auto].
+Qed.
+
+Lemma C07_blocked_inst : forall t ssize rl d garb s,
+  wf_state (the_cfg t ssize rl) d s ->
+  let len := match top s with None => handler_depth t (lasti s) | Some n => n end in
+  exists g, run (the_cfg t ssize rl) quiet garb (mkW s OnThread)
+              = (OOk (lasti s) (firstn len (slots s)), g, mkW s OnThread)
+            /\ nretry g = 0 /\ length (reads g) = len
+            /\ (top s <> None -> firstn len (slots s) = slots s /\ len = d (lasti s)).
+Proof.
+  intros. apply (blocked_exact (the_cfg t ssize rl) d garb s (the_flags t ssize rl)); auto.
+  rewrite the_retries. lia.
+Qed.
+
+Example ex_blocked_hyp : wf_state ex_cfg ex_d ex_s2 /\ wf_state ex_cfg ex_d ex_s1.
+Proof. unfold wf_state; simpl. repeat split; auto; try lia. Qed.
+
+(* ====================================================================== 3.8-3.10 reader *)
+Require Import M_Snapshot310.
+
+Definition deref_index (r : rawread) : option nat := match r with RDeref i _ => Some i | RWord _ => None end.
+
+Lemma deref_from_bound : forall ws i vs rs, deref_from i ws = (vs, rs) ->
+  length vs = length ws /\
+  Forall (fun r => match r with RDeref j a => i <= j < i + length ws /\ a <> 0 | RWord _ => False end) rs.
+Proof.
+  induction ws as [|a r IH]; intros i vs rs H; simpl in H.
+  - inversion H; subst. split; auto.
+  - destruct (deref_from (S i) r) as [vs' rs'] eqn:E. destruct (IH _ _ _ E) as (Hl & Hf).
+    assert (Hf' : Forall (fun r0 => match r0 with RDeref j a0 => i <= j < i + length (a :: r) /\ a0 <> 0 | RWord _ => False end) rs').
+    { eapply Forall_impl; [|exact Hf]. intros [j|j b]; simpl; auto. intros [? ?]. split; auto. lia. }
+    destruct (a =? 0) eqn:Ea; inversion H; subst; simpl; split; auto.
+    constructor; auto. apply Nat.eqb_neq in Ea. simpl. split; auto. lia.
+Qed.
+
+Lemma validity_limit_le (bs : list blk) n :
+  (forall b, In b bs -> b_level b <= n) -> validity_limit bs <= n.
+Proof.
+  unfold validity_limit, finally_blocks. induction bs as [|b r IH]; intros H; simpl; [lia|].
+  destruct (b_type b =? SETUP_FINALLY); simpl.
+  - apply Nat.max_lub; [apply H; left; auto | apply IH; intros; apply H; right; auto].
+  - apply IH; intros; apply H; right; auto.
+Qed.
+
+(* every raw dereference made by the 3.8-3.10 reader is of a word below stack_validity_limit (the
+   highest level of an active finally/with block); a suspended frame is never dereferenced raw; all
+   word reads stay inside the co_stacksize area; and if, as CPython guarantees, no active block was
+   set up above the current stack depth, every dereferenced word is a live stack slot *)
+Lemma py310_reads_below_limit f vs bl rds :
+  inspect310 f = Some (vs, bl, rds) ->
+  Forall (fun r => match r with
+                   | RWord i => i < length (f_mem f)
+                   | RDeref i a => f_running f = true /\ i < validity_limit (f_blocks f) /\ a <> 0 /\
+                                   ((forall b, In b (f_blocks f) -> b_level b <= f_depth f) -> i < f_depth f)
+                   end) rds.
+Proof.
+  unfold inspect310. set (top := if f_running f then length (f_mem f) else f_depth f).
+  destruct (top <=? length (f_mem f)) eqn:Et; simpl; [|discriminate]. apply Nat.leb_le in Et.
+  destruct (forallb _ (f_blocks f)) eqn:Eb; simpl; [|discriminate].
+  assert (Hw : Forall (fun r => match r with RWord i => i < length (f_mem f) | RDeref _ _ => False end)
+                      (map RWord (seq 0 top))).
+  { apply Forall_forall. intros r Hr. apply in_map_iff in Hr. destruct Hr as (i & Hi1 & Hi). subst r. apply in_seq in Hi. lia. }
+  destruct (f_running f) eqn:Er.
+  - destruct (deref_from 0 (firstn (validity_limit (f_blocks f)) (firstn top (f_mem f)))) as [vs' ds] eqn:Ed.
+    intros H. inversion H; subst. apply Forall_app. split.
+    + eapply Forall_impl; [|exact Hw]. intros [i|i a]; simpl; auto. contradiction.
+    + destruct (deref_from_bound _ _ _ _ Ed) as (_ & Hd).
+      eapply Forall_impl; [|exact Hd]. intros [i|i a]; simpl; [intros []|]. intros [Hi Ha].
+      rewrite firstn_length in Hi. split; auto. split; [lia|]. split; auto.
+      intros Hlev. pose proof (validity_limit_le (f_blocks f) (f_depth f) Hlev). lia.
+  - intros H. inversion H; subst.
+    eapply Forall_impl; [|exact Hw]. intros [i|i a]; simpl; auto. contradiction.
+Qed.
+
+Definition ex_f310 := mkF true 3 [11; 12; 13; 99; 0] [mkB 122 40 1; mkB 120 7 2; mkB 122 60 2] [].
+Example ex_py310 :
+  inspect310 ex_f310 = Some ([Some 11; Some 12], [(40, 1); (60, 2)],
+                             [RWord 0; RWord 1; RWord 2; RWord 3; RWord 4; RDeref 0 11; RDeref 1 12])
+  /\ (forall b, In b (f_blocks ex_f310) -> b_level b <= f_depth ex_f310).
+Proof. split; [reflexivity|]. simpl. intros b [<-|[<-|[<-|[]]]]; simpl; lia. Qed.
